@@ -459,6 +459,9 @@ func (ep *ExportingProcess) dataRecSanityCheck(rec entities.Record) error {
 	if len(rec.GetBuffer()) < int(ep.templatesMap[templateID].minDataRecLen) {
 		return fmt.Errorf("process: Data Record does not pass the min required length (%d) check for template ID %d", ep.templatesMap[templateID].minDataRecLen, templateID)
 	}
+	if err := entities.EncodingError(rec); err != nil {
+		return fmt.Errorf("process: Data Record holds a value that cannot be encoded: %v", err)
+	}
 	return nil
 }
 
